@@ -198,6 +198,9 @@ pub struct CodegenContext {
     test_elements: Vec<TestElement>,
 
     source_map: SourceMap,
+
+    /// The files that are currently being emitted (the main file and the chain of imports leading to the current file)
+    import_stack: Vec<String>,
 }
 
 #[derive(Debug, PartialEq, Eq, Hash)]
@@ -243,6 +246,7 @@ impl CodegenContext {
             next_macro_scope_id: 0,
             test_elements: vec![],
             source_map: SourceMap::default(),
+            import_stack: vec![],
         }
     }
 
@@ -746,6 +750,22 @@ impl CodegenContext {
                 if let Some(imported_file) = self.tree.try_get_file(resolved_path) {
                     let imported_file_tokens = imported_file.tokens.clone();
 
+                    // A file that (indirectly) imports itself would be emitted forever
+                    if self.import_stack.is_empty() {
+                        let main_file = self.tree.main_file().file.name().to_string();
+                        self.import_stack.push(main_file);
+                    }
+                    let imported_file_name = imported_file.file.name().to_string();
+                    if self.import_stack.contains(&imported_file_name) {
+                        return Err(Diagnostic::error()
+                            .with_message(format!(
+                                "recursive import of '{}'",
+                                filename.uninterpolated_text()
+                            ))
+                            .with_labels(vec![filename.span().to_label()])
+                            .into());
+                    }
+
                     // Make the filename a definition by itself, allowing the user to follow the definition
                     let def = self
                         .analysis
@@ -761,13 +781,16 @@ impl CodegenContext {
                         span: filename.span(),
                     });
 
-                    self.with_scope(import_scope, block.as_ref(), |s| {
+                    self.import_stack.push(imported_file_name);
+                    let result = self.with_scope(import_scope, block.as_ref(), |s| {
                         if let Some(block) = block {
                             s.emit_tokens(&block.inner)?;
                         }
 
                         s.emit_tokens(&imported_file_tokens)
-                    })?;
+                    });
+                    self.import_stack.pop();
+                    result?;
 
                     if let Some(import_nx) =
                         self.symbols.try_index(self.current_scope_nx, import_scope)
